@@ -127,7 +127,10 @@ def wrappers(chk, kind, st, arr, els, rows, total, r, with_index):
         except Exception as e:  # noqa: BLE001
             chk.violation(f"DaskGeoSeries.bounds/{kind}/raises-{common.err_kind(e)}", dict(rep, error=repr(e)[:300]))
         chk.count("wrapper:dask")
-    if with_index and n >= 1:
+    mixed = any(any(x == "nan" for x in row) and not all(x == "nan" for x in row) for row in rows)
+    if with_index and mixed:
+        chk.drifted("an element has a bounds row that is NaN on one axis only (a half-defined box): the spatial index holds boxes, its total_bounds is not compared")
+    if with_index and n >= 1 and not mixed:
         try:
             sx = arr.copy().sindex  # fresh object: no cached index
             it = canon_row(sx.total_bounds)
